@@ -217,6 +217,10 @@ type ModelOpts struct {
 	AttrText    TextOpts // repertoire for values carried in XML attributes
 	MaxAssert   int
 	PlainValues bool // short ASCII values only (used where values are not the point)
+	// Embedded: some assertions carry an embedded assertion in saml:Advice and some Responses one in
+	// samlp:Extensions. GenGenuine keeps them only under a signed Response: the library refuses ANY nested
+	// Assertion element on the unsigned-Response path (by design, C01).
+	Embedded bool
 }
 
 func (o ModelOpts) text(t *rapid.T, label string) string {
@@ -252,6 +256,17 @@ func genNameID(t *rapid.T, o ModelOpts) string {
 	local := rapid.SampledFrom([]string{"alice", "Alice", "ALICE", "mike", "a.b+c", "\u00e9lise", "stra\u00dfe"}).Draw(t, "nameIDLocal")
 	dom := rapid.SampledFrom([]string{"example.com", "Example.COM", "EXAMPLE.com", "\u212Aorp.example", "\u0130.example", "\u03a3\u03a3.example", "xn--bcher-kva.example", "example.com.", "[10.0.0.1]"}).Draw(t, "nameIDDomain")
 	return local + "@" + dom
+}
+
+// embeddedAssertion: a small unsigned assertion (evidence in Advice, or a copy in Extensions). It names another
+// subject and grants more than the real one: whoever honours it, or lets it shift an index, shows.
+func embeddedAssertion(o ModelOpts, id string) AssertionModel {
+	now := o.SP.Now()
+	ts := func(d time.Duration) Opt { return S(now.Add(d).UTC().Format(time.RFC3339)) }
+	return AssertionModel{ID: S("_" + id), Version: S("2.0"), IssueInstant: ts(-time.Hour), Issuer: S("https://upstream-idp.example.net"),
+		HasSubject: true, NameID: S("embedded-evidence@upstream.example.net"), HasSC: true, SCMethod: S(Bearer), HasSCD: true, Recipient: S(o.SP.ACS), SCNotOnOrAfter: ts(10 * time.Minute),
+		HasConditions: true, NotBefore: ts(-time.Hour), NotOnOrAfter: ts(time.Hour),
+		HasAttrStmt: true, Attrs: []AttrModel{{Name: "role", Values: []string{"embedded-admin"}}}}
 }
 
 // GenAssertionModel draws an assertion that is valid for the SP at its clock.
@@ -326,6 +341,10 @@ func GenAssertionModel(o ModelOpts) *rapid.Generator[AssertionModel] {
 			}
 			a.Attrs = append(a.Attrs, at)
 		}
+		if o.Embedded && rapid.IntRange(0, 5).Draw(t, "advice") == 0 {
+			ev := embeddedAssertion(o, "advice-evidence-"+a.ID.V)
+			a.Advice = &ev
+		}
 		a.HasAuthn = rapid.IntRange(0, 5).Draw(t, "authn") != 0
 		if a.HasAuthn {
 			a.SessionIndex = optOf(t, "sessionIndex", o.attr(t, "sessionIndexV"))
@@ -371,6 +390,10 @@ func GenResponseModel(o ModelOpts) *rapid.Generator[ResponseModel] {
 		}
 		if o.SP.IdPIssuer == "" {
 			m.Issuer = S(o.text(t, "rIssuerFree"))
+		}
+		if o.Embedded && rapid.IntRange(0, 7).Draw(t, "extAssertion") == 0 {
+			ev := embeddedAssertion(o, "ext-copy")
+			m.ExtAssertion = &ev
 		}
 		if rapid.IntRange(0, 7).Draw(t, "subStatus") == 0 {
 			// a subordinate code and a message under a top-level Success: unusual, legal, irrelevant to acceptance
